@@ -36,6 +36,8 @@ struct mcount_arch_context {
 	struct {
 		unsigned long v[8];
 	} xmm[ARCH_MAX_FLOAT_ARGS];
+	/* rounding mode, exception flags and masks of the SSE unit */
+	unsigned int mxcsr;
 };
 
 #define ARCH_PLT0_SIZE 16
